@@ -64,4 +64,73 @@ theorem dmrgFwdC_eq (cj : α → α) (P : Phi3 α) (y A x : Core α) (L S R : Na
   refine sumTo_congr fun s _ => sumTo_congr fun r _ => sumTo_congr fun M _ => sumTo_congr fun N _ => ?_
   ring
 
+/-! ### the chains of `dmrg_hadamard_python` are the matvec chains on the diagonal embedding of the first factor
+
+`cj 0 = 0` is all that is needed of the conjugation; the mode index must be in range (outside, the embedding yields 0). -/
+
+theorem hadW1b_eq (cj : α → α) (h0 : cj 0 = 0) (PL : Phi3 α) (z1 x1 : Core α) (y n1 a' x' : Nat) (hn : n1 < z1.m) :
+    dmrgW1b cj PL (diagCore z1) x1 y n1 a' x' = hadW1b cj PL z1 x1 y n1 a' x' := by
+  unfold dmrgW1b hadW1b
+  refine sumTo_congr fun a _ => ?_
+  show sumTo z1.m (fun k => _) = _
+  rw [sumTo_single n1 hn]
+  · simp [diagCore]
+  · intro k _ hne
+    have : ¬ n1 = k := fun h => hne h.symm
+    simp [diagCore, this, h0]
+
+theorem hadW2b_eq (cj : α → α) (h0 : cj 0 = 0) (PR : Phi3 α) (z2 x2 : Core α) (a' n2 x' Y : Nat) (hn : n2 < z2.m) :
+    dmrgW2b cj PR (diagCore z2) x2 a' n2 x' Y = hadW2b cj PR z2 x2 a' n2 x' Y := by
+  unfold dmrgW2b hadW2b
+  show sumTo z2.m (fun k => _) = _
+  rw [sumTo_single n2 hn]
+  · simp [diagCore]
+  · intro k _ hne
+    have : ¬ n2 = k := fun h => hne h.symm
+    simp [diagCore, this, h0, sumTo_zero']
+
+/-- the five inline einsums of the Hadamard supercore compute `dmrgSuper` on the diagonal embeddings (whence
+    `dmrgSuper_hadamard`: the elementwise product) -/
+theorem hadWc_eq_super (cj : α → α) (h0 : cj 0 = 0) (PL PR : Phi3 α) (z1 x1 z2 x2 : Core α) (y m1 m2 Y : Nat)
+    (hm1 : m1 < z1.m) (hm2 : m2 < z2.m) :
+    hadWc cj PL PR z1 x1 z2 x2 y m1 m2 Y = dmrgSuper cj PL PR (diagCore z1) x1 (diagCore z2) x2 y m1 m2 Y := by
+  rw [← dmrgWc_eq_super]
+  unfold hadWc dmrgWc
+  show _ = sumTo z1.r1 (fun a' => sumTo x1.r1 (fun x' => _))
+  refine sumTo_congr fun a' _ => sumTo_congr fun x' _ => ?_
+  rw [hadW1b_eq cj h0 PL z1 x1 y m1 a' x' hm1, hadW2b_eq cj h0 PR z2 x2 a' m2 x' Y hm2]
+
+/-- right-to-left environment of the Hadamard product = `dmrgPhiBck` on the diagonal embedding -/
+theorem hadBckC_eq (cj : α → α) (h0 : cj 0 = 0) (P : Phi3 α) (y z x : Core α) (l s r : Nat) :
+    hadBckC cj P y z x l s r = dmrgPhiBck cj P y (diagCore z) x l s r := by
+  rw [← dmrgBckC_eq]
+  unfold hadBckC dmrgBckC
+  show _ = sumTo z.m (fun M => sumTo y.r1 (fun L => _))
+  refine sumTo_congr fun M hM => sumTo_congr fun L _ => ?_
+  congr 1
+  unfold dmrgBckB hadBckB
+  show _ = sumTo z.m (fun N => sumTo z.r1 (fun S => _))
+  rw [sumTo_single M hM]
+  · simp [diagCore]
+  · intro k _ hne
+    have : ¬ M = k := fun h => hne h.symm
+    simp [diagCore, this, h0, sumTo_zero']
+
+/-- left-to-right environment of the Hadamard product = `dmrgPhiFwd` on the diagonal embedding -/
+theorem hadFwdC_eq (cj : α → α) (h0 : cj 0 = 0) (P : Phi3 α) (y z x : Core α) (L S R : Nat) :
+    hadFwdC cj P y z x L S R = dmrgPhiFwd cj P y (diagCore z) x L S R := by
+  rw [← dmrgFwdC_eq]
+  unfold hadFwdC dmrgFwdC
+  show _ = sumTo y.r0 (fun l => sumTo z.m (fun M => _))
+  refine sumTo_congr fun l _ => sumTo_congr fun M hM => ?_
+  congr 1
+  unfold dmrgFwdB hadFwdB
+  show _ = sumTo z.r0 (fun s => sumTo z.m (fun N => _))
+  refine sumTo_congr fun s _ => ?_
+  rw [sumTo_single M hM]
+  · simp [diagCore]
+  · intro k _ hne
+    have : ¬ M = k := fun h => hne h.symm
+    simp [diagCore, this, h0]
+
 end TT.C11
